@@ -13,7 +13,7 @@ From HPBF Require Import Tape.
 Import ListNotations.
 Open Scope Z_scope.
 
-Inductive rop := REnter | RMov (d : Z) | RMovU (d : Z) (* unchecked mode: no probe *) | RGet (k : Z) | RSet (k v : Z) | RPre (a b : Z) (* the caller's make_accessible(a, b) *).
+Inductive rop := REnter | RMov (d : Z) | RMovJ (d : Z) (* the JIT's move: on a miss only the probed cell is requested *) | RMovU (d : Z) (* unchecked mode: no probe *) | RGet (k : Z) | RSet (k v : Z) | RPre (a b : Z) (* the caller's make_accessible(a, b) *).
 
 (** what a run lets the caller observe: values read, and whether a probe found the window end
     accessible (used to drive the implementation through the same history) *)
@@ -35,6 +35,14 @@ Definition r_probe (ok : bool) (t1 : rtape) (d : Z) : tres rtape :=
   if t_check t1 (if d <? 0 then mn else mx) then TOk t1
   else t_make_accessible pol ok t1 mn (mx + 1).
 
+(** the baseline JIT (codegen.rs, [Instr::Mov] with [safe]): the same one-sided probe, but on a
+    miss it stores the probed cell's index as the current offset, calls
+    [hpbf_context_extend(cxt, 0, 1)] and recomputes the tape pointer — that is, it requests the
+    probed cell only *)
+Definition r_probe_jit (ok : bool) (t1 : rtape) (d : Z) : tres rtape :=
+  let probe := if d <? 0 then mn else mx in
+  if t_check t1 probe then TOk t1 else t_make_accessible pol ok t1 probe (probe + 1).
+
 Fixpoint r_run (ops : list rop) (allocs : list bool) (t : rtape) : tres (list robs * rtape) :=
   match ops with
   | [] => TOk ([], t)
@@ -52,6 +60,17 @@ Fixpoint r_run (ops : list rop) (allocs : list bool) (t : rtape) : tres (list ro
           match r_probe ok t1 d with
           | TOk t' => match r_run rest allocs' t' with
                       | TOk (vs, tf) => TOk (RProbe (t_check t1 (if d <? 0 then mn else mx)) :: vs, tf)
+                      | RawOob i => RawOob i | TooLarge => TooLarge | AllocFail => AllocFail
+                      end
+          | RawOob i => RawOob i | TooLarge => TooLarge | AllocFail => AllocFail
+          end
+      | RMovJ d =>
+          let t1 := t_mov t d in
+          let probe := if d <? 0 then mn else mx in
+          let '(ok, allocs') := if grows t1 probe (probe + 1) then next_alloc allocs else (true, allocs) in
+          match r_probe_jit ok t1 d with
+          | TOk t' => match r_run rest allocs' t' with
+                      | TOk (vs, tf) => TOk (RProbe (t_check t1 probe) :: vs, tf)
                       | RawOob i => RawOob i | TooLarge => TooLarge | AllocFail => AllocFail
                       end
           | RawOob i => RawOob i | TooLarge => TooLarge | AllocFail => AllocFail
@@ -86,6 +105,7 @@ Fixpoint r_spec (ops : list rop) (cells : Z -> Z) (pos : Z) : list Z :=
   | [] => []
   | REnter :: rest => r_spec rest cells pos
   | RMov d :: rest => r_spec rest cells (pos + d)
+  | RMovJ d :: rest => r_spec rest cells (pos + d)
   | RMovU d :: rest => r_spec rest cells (pos + d)
   | RPre _ _ :: rest => r_spec rest cells pos
   | RGet k :: rest => cells (pos + k) :: r_spec rest cells pos
@@ -98,6 +118,7 @@ Fixpoint rops_ok (mn mx : Z) (ops : list rop) (pos : Z) : bool :=
   | [] => true
   | REnter :: rest => rops_ok mn mx rest pos
   | RMov d :: rest => small (pos + d) && rops_ok mn mx rest (pos + d)
+  | RMovJ d :: rest => small (pos + d) && rops_ok mn mx rest (pos + d)
   | RMovU _ :: _ | RPre _ _ :: _ => false
   | RGet k :: rest => (mn <=? k) && (k <=? mx) && rops_ok mn mx rest pos
   | RSet k _ :: rest => (mn <=? k) && (k <=? mx) && rops_ok mn mx rest pos
